@@ -130,6 +130,9 @@ def run(ctx, rep, tier):
     rep.rule("QF", "detailed-placement model built from placed geometry only", 2)
     rep.rule("SO", "no fixed cell in the obstacle lists of the builders", 2)
     rep.rule("SC", "a position found in the sorted copy of the rows never subscripts the unsorted original", 1)
+    rep.rule("RP", "reordering: every candidate ordering is packed from the start of its region", 1)
+    rep.rule("LW", "the shift pass writes every solved position back", 1)
+    rep.rule("BU", "backtracking searches of the detailed placer undo their state changes under the conditions they made them", 1)
     rep.rule("RW", "reordering: region capacity tested with the candidate included", 1)
     rep.rule("SA", "admission predicates honour row polarity", 5)
     # ---- W2 ----
@@ -226,7 +229,40 @@ def run(ctx, rep, tier):
     if nsc == 0:
         rep.unknown("SC", None, None, "sorted copies of the row list", "none found in DetailedPlacement / LegalizerBase (shape changed)")
     # ---- RW: the capacity of a reordering region is tested with the candidate already in it
+    _sh = prog.func(CQ + "DetailedPlacer::runShiftsOnCells", required=False) or []
+    _n_lw = 0
+    for f_ in _sh:
+        if f_.body is None or not f_.params:
+            continue
+        pc_ = ("var", f_.params[0].get("id"), f_.params[0].get("name"))
+        for l_ in [y_ for y_ in walk(f_.body) if y_.get("kind") == "CXXForRangeStmt"]:
+            ch_ = [c_ for c_ in inner(l_) if isinstance(c_, dict)]
+            var_ = inner(ch_[6])[0] if len(ch_) > 6 and inner(ch_[6]) else None
+            if var_ is None or var_.get("_rangevar") is None or canon(var_["_rangevar"]) != pc_:
+                continue
+            body_ = ch_[-1]
+            writes_ = [y_ for y_ in walk(body_) if y_.get("kind") == "BinaryOperator" and y_.get("opcode") == "=" and
+                       canon(children(y_)[0])[0] == "index" and str(canon(children(y_)[0])[1][1] if canon(children(y_)[0])[1][0] == "field" else "").endswith("::cellX_")]
+            if not writes_:
+                continue
+            _n_lw += 1
+            skip_ = next((y_ for y_ in walk(body_) if y_.get("kind") in ("ContinueStmt", "BreakStmt", "IfStmt", "ConditionalOperator")), None)
+            if skip_ is None:
+                rep.holds("LW", l_, f_, "runShiftsOnCells writes the solved position of every cell of the sub-problem back (no skip)")
+            else:
+                rep.violation("LW", skip_, f_, "runShiftsOnCells writes the solved positions back under a condition (%s)" % skip_.get("kind"),
+                              "the positions are one solution of one linear program: a cell that keeps its old position while its neighbours take the new ones "
+                              "can end up overlapping them or out of order", key="DetailedPlacer::runShiftsOnCells|partial write-back")
+    if _n_lw == 0:
+        rep.unknown("LW", None, None, "DetailedPlacer::runShiftsOnCells", "write-back loop over the cells not found (shape changed)")
+    from .common import check_balanced_undo
+    fs_ = [f_ for f_ in prog.funcs.values() if f_.body is not None and f_.unit.name.endswith("place_detailed.cpp")]
+    if check_balanced_undo(ctx, rep, "BU", fs_) == 0:
+        rep.unknown("BU", None, None, "recursive searches in place_detailed.cpp", "no do/undo pair found (shape changed)")
     check_region_capacity(ctx, rep)
+    from .common import check_restart_per_iteration
+    if check_restart_per_iteration(ctx, rep, "RP", [f_ for f_ in prog.funcs.values() if f_.cls == CQ + "RowReordering"]) == 0:
+        rep.unknown("RP", None, None, "packing position of RowReordering", "no running position advanced and used by an inner loop was found (shape changed)")
     # ---- MV ----
     for q, cal, val_q in (("DetailedPlacer::doSwap", "valueOnSwap", CQ + "DetailedPlacer::valueOnSwap"),
                           ("DetailedPlacer::doInsert", "valueOnInsert", CQ + "DetailedPlacer::valueOnInsert")):
